@@ -137,6 +137,26 @@ const HOSTS: &[(&str, HostKind)] = &[
 const SCHEMES: &[&str] = &["https", "HTTPS", "http", "ws", "wss", "ftp"];
 const PORTS: &[&str] = &["", ":443", ":8443"];
 
+pub fn dict_hosts() -> Vec<String> {
+    let mut v = vec![];
+    for l in crate::core::dict::source_literals(&["passkey-client", "public-suffix"], 24) {
+        let Ok(t) = String::from_utf8(l) else { continue };
+        let t = t.to_ascii_lowercase();
+        if t.is_empty() || !t.bytes().all(|b| b.is_ascii_alphanumeric() || b == b'.' || b == b'-') || !t.bytes().any(|b| b.is_ascii_alphanumeric()) || t.starts_with(['.', '-']) || t.ends_with(['.', '-']) || t.contains("..") {
+            continue;
+        }
+        v.push(t.clone());
+        v.push(format!("foo.{t}"));
+        v.push(format!("{t}.example.com"));
+        v.push(format!("x{t}"));
+        v.push(format!("{t}x"));
+    }
+    v.sort();
+    v.dedup();
+    v.retain(|h| !HOSTS.iter().any(|(k, _)| k == h));
+    v
+}
+
 fn host_kind(host: &str) -> HostKind {
     let h = host.trim_start_matches('[').trim_end_matches(']');
     if h.parse::<std::net::IpAddr>().is_ok() {
@@ -437,6 +457,15 @@ pub fn cases(w: &World, tier: Tier) -> Vec<Case> {
             }
             let bare = host.trim_start_matches('[').trim_end_matches(']');
             push("android", bare.to_string(), rp.clone(), false);
+        }
+    }
+    // host names built from the constants dictionary: every literal in the client and
+    // public-suffix sources that can be a host label or name, alone, below a registrable
+    // domain, above one, and with a letter glued on either side
+    for host in dict_hosts() {
+        for rp in rp_ids_for(&host) {
+            push("web", format!("https://{host}/"), rp.clone(), false);
+            push("android", host.clone(), rp.clone(), false);
         }
     }
     // every rule of the shipped list as RP ID of an origin one label below it
